@@ -20,7 +20,8 @@
 *)
 EXTENDS Integers, Sequences, FiniteSets, TLC
 
-CONSTANTS MaxN, Kinds, SFlaws
+CONSTANTS MaxN, Kinds, SFlaws,
+          DUP      \* TRUE: the grammar may also duplicate a sub-tree (used for sampling repeated groups)
 Leaf == Kinds
 TL == {"on", "off", "dur", "del", "uq"}          \* carry topLevelTagGroup
 Time == {"on", "off", "dur", "del"}               \* temporal keys (extra TEMPORAL_TAG_ERROR when misplaced)
@@ -44,7 +45,22 @@ AddNode(p, kd) == /\ n < MaxN
                   /\ (IF p = 0 THEN TRUE ELSE kind[p] = "g")
                   /\ n' = n + 1 /\ par' = Append(par, p) /\ kind' = Append(kind, kd)
                   /\ UNCHANGED sflaw
-Next == \E p \in 0..n, kd \in Kinds \cup {"g"} : AddNode(p, kd)
+\* copy the sub-tree rooted at k and add the copy as a new sibling of k (a repeated tag or group)
+RECURSIVE Desc(_)
+Desc(k) == {k} \cup UNION {Desc(j) : j \in {x \in 1..n : par[x] = k}}
+Rank(S, j) == Cardinality({x \in S : x <= j})
+DupSubtree(k) == LET S == Desc(k) IN
+                 /\ n + Cardinality(S) <= MaxN
+                 /\ n' = n + Cardinality(S)
+                 /\ par' = [i \in 1..(n + Cardinality(S)) |->
+                              IF i <= n THEN par[i]
+                              ELSE LET j == CHOOSE x \in S : Rank(S, x) = i - n IN
+                                   IF j = k THEN par[k] ELSE n + Rank(S, par[j])]
+                 /\ kind' = [i \in 1..(n + Cardinality(S)) |->
+                              IF i <= n THEN kind[i] ELSE kind[CHOOSE x \in S : Rank(S, x) = i - n]]
+                 /\ UNCHANGED sflaw
+Next == \/ \E p \in 0..n, kd \in Kinds \cup {"g"} : AddNode(p, kd)
+        \/ (DUP /\ \E k \in 1..n : DupSubtree(k))
 Spec == Init /\ [][Next]_vars
 
 \* ---------- structural equality of sub-trees up to sibling order ----------
